@@ -343,10 +343,20 @@ def generate(unit, repo, vacuity=False, falsify=False, stub_fns=None, drop_asser
                     l2['ensures'] = [('loop%d.ens.%s' % (n, c.label), c.expr) for c in l.get('ensures', [])]
                     loops[n] = l2
                 text = A.insert_loops(text, loops, total=(getattr(spec, 'loops_total', None) or (max(loops) + 1 if loops else None)))
-                text, lost_hints = A.insert_hints(text, spec.hints)
+                # SOFT hints (4th element 'soft') only carry a labelled assertion (no lemma call, not needed by any other obligation): if
+                # their anchor statement is gone they are skipped, the assertion they carry becomes undecided for its property, and the rest
+                # of the function is still verified — a dropped call must not hide behind the lost anchor of an assertion about it
+                hard_hints = [h for h in spec.hints if not (len(h) >= 4 and h[3] == 'soft')]
+                soft_hints = [tuple(h[:3]) for h in spec.hints if len(h) >= 4 and h[3] == 'soft']
+                text, lost_hints = A.insert_hints(text, hard_hints)
                 if lost_hints:
                     # a proof hint that has lost its anchor would make a true obligation unprovable: never verify without it
                     raise A.Lost('hint anchors lost: %s' % lost_hints)
+                soft_lost_labels = []
+                for sh in soft_hints:
+                    text, lost1 = A.insert_hints(text, [sh])
+                    if lost1:
+                        soft_lost_labels += re.findall(r'/\*@L:(hint\.[\w.]+)\*/', sh[2])
                 if vacuity:
                     text, _ = A.insert_hints(text, [('start', None, 'proof { /*@L:vacuity*/ assert(false); /*@E*/ }')])
                 text = A.insert_header(text, [('req.' + c.label, c.expr) for c in spec.requires],
@@ -412,6 +422,12 @@ def generate(unit, repo, vacuity=False, falsify=False, stub_fns=None, drop_asser
                     g.obligations['%s::%s::guard.ens.%s' % (unit.name, key, c.label)] = dict(props=c.props or fprops, fn=key, kind='postcondition of the unwinding guard body', expr=c.expr)
             for c in spec.hint_obligations:
                 g.obligations['%s::%s::hint.%s' % (unit.name, key, c.label)] = dict(props=c.props or fprops, fn=key, kind='assertion in proof hint', expr=c.expr)
+            for lbl_ in (locals().get('soft_lost_labels') or []):
+                rk_ = '%s::%s::%s' % (unit.name, key, lbl_)
+                if rk_ in g.obligations:
+                    g.obligations[rk_] = dict(g.obligations[rk_], kind='assertion in proof hint (its anchor statement is gone: undecided)')
+                    g.review.add(rk_)
+            soft_lost_labels = []
             for c in getattr(spec, 'review_if_present', []):
                 rk = '%s::%s::review.%s' % (unit.name, key, c.label)
                 g.obligations[rk] = dict(props=c.props or fprops, fn=key, kind='review obligation (optional item PRESENT: no contract can decide it)', expr=c.expr)
